@@ -260,7 +260,7 @@ class Tracker:
             api_err = ["%s:%s" % (call, type(e).__name__) for call, e in cl.api_errors
                        if type(e).__name__ not in DOCUMENTED_API_ERRORS]
             out["cl"][name] = {
-                "mode": cl.mode + ("-lazy" if getattr(cl, "lazy", False) else ""), "ev": ev, "sent": ["m:%s:%d" % (name, i) for i in range(len(cl.sent))],
+                "mode": cl.mode + ("-lazy" if getattr(cl, "lazy", False) else "") + ("-chasing" if getattr(cl, "chasing", False) else ""), "ev": ev, "sent": ["m:%s:%d" % (name, i) for i in range(len(cl.sent))],
                 "late": late, "apiErr": api_err, "ordered": True, "causes": causes,
                 "atClose": st["at_close"] or {"claimed": False, "up": False, "everOpened": False, "closedMood": "-",
                                               "listening": False},
